@@ -51,6 +51,13 @@ func (rs *peerSwitchSender) _switch(
 			r.Frame = frame
 			oReqs[addr] = r
 		}
+		// Every peer must see (and answer) every request, or the synchronizer waits
+		// forever for the responses of the peers the frame has no channels for.
+		for _, addr := range rs.addresses {
+			if _, ok := oReqs[addr]; !ok {
+				oReqs[addr] = Request{Command: r.Command, Config: r.Config, SeqNum: r.SeqNum}
+			}
+		}
 	} else {
 		for _, addr := range rs.addresses {
 			oReqs[addr] = r
